@@ -42,6 +42,7 @@ def run_shape(shape, tier):
         env = Env(symbolic=True)
         sqlprogs.setup_leaves(ctx, env, prog, n)
         templates.declare(ctx, env, shape["params"], shape["cons"])
+        sqlprogs.history(env, prog)
         try:
             rel = build(prog, env)
         except RelationalAlgebraError as e:
@@ -67,6 +68,9 @@ def run_shape(shape, tier):
                 info["outside"].append(templates.bind_concrete(shape["params"], model_values(ctx.solver.model(), ctx.vars)))
             raise Skip(f"outside SQL model: {e}")
         except sqlmodel.SqlInvalid as e:
+            if "no such table" in str(e):
+                # not a translation of this tree at all: the statement reads a table that is not one of the tree's leaves
+                return [("the SQL reads only the leaf tables of the tree", False, {"why": str(e), "sql": str(ex)[:200]})]
             raise Skip(f"invalid SQL: {e} (see C08)")
         info.setdefault("sql", str(ex)[:300])
         got = relmodel.unordered(got)
@@ -133,6 +137,8 @@ def concrete_check(prog, rows, bind):
         try:
             rel, ex, got, env = sqlprogs.run_real_sql(prog, bind, rows, reverse=reverse)
         except Exception as e:  # noqa: BLE001
+            if "no such table" in str(e):
+                return True, "sql-reads-foreign-table", str(e)[:160]
             return False, f"raises:{type(e).__name__}", str(e)[:120]
         if common.canon(got) not in exps:
             hidden = _uses_hidden(prog, rows, bind, got)
